@@ -61,6 +61,16 @@ def c06_mir(proto, body):
             B.append('dmov q%d, d:%d(v)' % (k, PO + 8 * k))
     if kind == 'alloca':
         B.append('mov an, i64:%d(v)' % PO)
+        if body.get('bstart'):
+            # a block with automatic deallocation (what inlining of alloca-using callees produces)
+            loc.append('i64:bs')
+            loc.append('i64:ap3')
+            B.append('bstart bs')
+            B.append('alloca ap3, an')
+            B.append('mov i64:0(ap3), 7')
+            B.append('and am, ap3, 15')
+            B.append('mov i64:%d(o), am' % (XO + 40))
+            B.append('bend bs')
         B.append('alloca ap, an')
         B.append('and am, ap, 15')
         B.append('mov i64:%d(o), am' % (XO + 8))
@@ -154,7 +164,7 @@ def c06_mir(proto, body):
 
 def gen_body(rng):
     kind = rng.choice(['plain', 'plain', 'pressure', 'pressure', 'alloca', 'fppress', 'call', 'leafpress', 'leafpress'])
-    return dict(kind=kind, nlive=rng.randint(6, 14), va_alloca=rng.random() < 0.5, alloca_n=rng.choice([1, 8, 15, 16, 17, 100, 333]),
+    return dict(kind=kind, nlive=rng.randint(6, 14), bstart=rng.random() < 0.5, va_alloca=rng.random() < 0.5, alloca_n=rng.choice([1, 8, 15, 16, 17, 100, 333]),
                 press=[rng.getrandbits(64) for _ in range(NPRESS)],
                 fpress=[float(rng.randint(-1000, 1000)) for _ in range(NPRESS)],
                 mxcsr=rng.choice([0x1f80, 0x1f80, 0x3f80, 0x5f80, 0x7f80, 0x9fc0]),
@@ -354,8 +364,9 @@ def compare_c06(proto, body, m, impl, vals, resvals, rblk_ptrs, engine='gen'):
     if kind == 'alloca':
         a1 = int.from_bytes(outs[XO + 8:XO + 16], 'little')
         a2 = int.from_bytes(outs[XO + 16:XO + 24], 'little')
-        if a1 != 0 or a2 != 0:
-            bad.append('alloca memory not 16-byte aligned (addr mod 16 = %d, %d)' % (a1, a2))
+        a3 = int.from_bytes(outs[XO + 40:XO + 48], 'little') if body.get('bstart') else 0
+        if a1 != 0 or a2 != 0 or a3 != 0:
+            bad.append('alloca memory not 16-byte aligned (addr mod 16 = %d, %d, %d)' % (a1, a2, a3))
         if int.from_bytes(outs[XO + 24:XO + 32], 'little') != 81985529216486895 \
                 or int.from_bytes(outs[XO + 32:XO + 40], 'little') != 1311768467463790320:
             bad.append('alloca memory lost its contents across a call')
